@@ -49,7 +49,7 @@ Lemma lex_name_longest : forall keys inp pos parts cps endpos,
   ((forall j, 1 <= j <= length parts -> ~ bound keys parts j) ->
      lex_name keys false inp pos = LName (name_new parts) endpos).
 Proof.
-  intros keys inp pos parts cps endpos Hc Hitem. unfold lex_name. rewrite Hc. rewrite Hitem. split.
+  intros keys inp pos parts cps endpos Hc Hitem. unfold lex_name, lex_name_gen. rewrite Hc. rewrite Hitem. cbn [index_of]. split.
   - intros pc Hr Hb Hmax.
     destruct (search_complete keys parts (length parts) pc Hr Hb) as [pc' [Hs Hle]].
     rewrite Hs. destruct (search_some _ _ _ _ Hs) as [Hr' [Hb' _]].
@@ -98,3 +98,10 @@ Proof.
   destruct (lex_name_longest keys inp pos parts cps endpos Hc Hi) as [H _].
   exact (H 1 (conj (le_n 1) Hl) Hb Hn).
 Qed.
+
+(* `for in+x in ..`: the keyword `in` is the first part of the candidate; the original code computed consumed_positions[0 - 1] *)
+Definition inp_in_plus_x : str := [105; 110; 43; 120]%N.   (* "in+x" *)
+
+Lemma till_in_first_part_witness :
+  lex_name_orig [] true inp_in_plus_x 0 = LCrash /\ lex_name [] true inp_in_plus_x 0 = LName inp_in_plus_x 4.
+Proof. split; vm_compute; reflexivity. Qed.
